@@ -15,9 +15,11 @@ VARIANTS = [
     {"name": "fixed(sorted,core-rejected)", "findings": []},
 ]
 RULE = ("case = an operation mix (batches, single- and multi-dataset transactions, dataset create/rename/delete, concurrent "
-        "whole-feed and merged-lookup readers) run by N goroutines on the real store under GOMAXPROCS 1/2/8, each in a child "
+        "whole-feed and merged-lookup readers, rejected transactions naming a missing dataset, concurrent creation of one dataset name "
+        "followed by writes through the returned handles, writers of one shared entity; gated witnesses: two-writer race held at lock.wait, "
+        "two creators meeting at DsManager.lock) run by N goroutines on the real store under GOMAXPROCS 1/2/8, each in a child "
         "process under a watchdog; observation = global lock trace from the verifhook lock points + final change feeds + reader "
-        "snapshots; a case is non-trivial when >= 2 goroutines write the same dataset or it is a forced-schedule witness; "
+        "snapshots + recorded-time ranks along every feed + scoped lookup of every written entity; a case is non-trivial when >= 2 goroutines write the same dataset or it is a forced-schedule witness; "
         "distinct = distinct case JSON")
 TRUSTED = [
     "sync.Mutex is modelled as a non-re-entrant exclusive lock; goroutine scheduling as arbitrary interleaving of whole "
@@ -40,8 +42,35 @@ CORE, DSM = -2, -1
 ATTEMPTS = 40
 
 
-def part(d, new=0, upd=False, mrg=False):
-    return {"d": d, "new": new, "upd": upd, "mrg": mrg}
+def part(d, new=0, upd=False, mrg=False, hot=False):
+    return {"d": d, "new": new, "upd": upd, "mrg": mrg, "hot": hot}
+
+
+MISSING = 999  # a dataset name that never exists (sorts after every other name)
+
+
+def race_case(procs=2):
+    """two clients rewrite the same entity of one dataset; client 0 is held at lock.wait until client 1 is done"""
+    return {"kind": "gated", "gate": "race", "procs": procs, "nds": 1, "groups": [], "readers": 0, "threads": [
+        [{"t": "batch", "parts": [part(1, 1, False, False, True)]}, {"t": "batch", "parts": [part(1, 1)]}],
+        [{"t": "batch", "parts": [part(1, 0, False, False, True)]}, {"t": "batch", "parts": [part(1, 2, False, False, True)]}]]}
+
+
+def cocreate_case(procs=2):
+    """two clients create the same new dataset (both meet at lock.wait #dsm first), then write through their handles"""
+    return {"kind": "gated", "gate": "barrier", "procs": procs, "nds": 1, "groups": [], "readers": 0, "watch": [50],
+            "threads": [[{"t": "create", "d": 50}, {"t": "batchh", "parts": [part(50, 2)]}, {"t": "batch", "parts": [part(1, 1)]}],
+                        [{"t": "create", "d": 50}, {"t": "batchh", "parts": [part(50, 1)]}, {"t": "batchh", "parts": [part(50, 1)]}]]}
+
+
+def txnfail_case():
+    """transactions naming an existing and a missing dataset, each followed by a write to the existing one"""
+    ops = []
+    for i in range(4):
+        ps = [part(1, 1), part(MISSING, 1)] if i % 2 == 0 else [part(MISSING, 1), part(2, 1), part(1, 0, True)]
+        ops += [{"t": "txnfail", "parts": ps}, {"t": "batch", "parts": [part(1, 1)]}, {"t": "batch", "parts": [part(2, 0, True)]}]
+    return {"kind": "coretxn", "procs": 2, "nds": 2, "groups": [], "readers": 0,
+            "threads": [ops, [{"t": "batch", "parts": [part(2, 1)]}]]}
 
 
 def forced_case(procs=2):
@@ -69,7 +98,8 @@ def small_mix():
 
 
 def witness_cases():
-    return [forced_case(2), coretxn_case(1), coretxn_case(0), small_mix()]
+    return [forced_case(2), coretxn_case(1), coretxn_case(0), small_mix(), race_case(2), race_case(1), cocreate_case(2), cocreate_case(8),
+            txnfail_case()]
 
 
 def corpus_cases():
@@ -93,10 +123,12 @@ def gen_mix(rng, big=False):
     for g in range(len(groups)):
         owned.setdefault(g % T, []).append(g)
     hot = rng.range(1, nds)  # contention: most batches go to one dataset
+    late = [50 + i for i in range(rng.range(0, 2))]  # datasets created during the run by whoever comes first
     threads = []
     for t in range(T):
         ops = []
         priv = []          # existing private datasets of this thread
+        mine = set()       # late shared datasets this thread has created / got a handle for
         nextp = 100 + t * 20
         nops = rng.range(3, 16 if big else 8)
         while len(ops) < nops:
@@ -104,12 +136,26 @@ def gen_mix(rng, big=False):
             if r < 45:
                 d = hot if rng.chance(1, 2) else rng.range(1, nds)
                 new = rng.range(0, 3)
-                upd = rng.chance(1, 2) or new == 0
-                ops.append({"t": "batch", "parts": [part(d, new, upd)]})
+                hot_e = rng.chance(1, 2)
+                upd = rng.chance(1, 2) or (new == 0 and not hot_e)
+                ops.append({"t": "batch", "parts": [part(d, new, upd, False, hot_e)]})
             elif r < 55:
                 d = rng.range(1, nds)
                 new = rng.range(0, 2)
                 ops.append({"t": "txn", "parts": [part(d, new, new == 0 or rng.chance(1, 2))]})
+            elif r < 59:
+                # rejected transaction: one shared dataset and one that does not exist (insertion order random)
+                d = rng.range(1, nds)
+                ps = [part(d, rng.range(0, 1), True), part(MISSING, 1)]
+                rng.shuffle(ps)
+                ops.append({"t": "txnfail", "parts": ps})
+            elif r < 64 and late:
+                d = rng.choice(late)
+                if d not in mine:
+                    ops.append({"t": "create", "d": d})
+                    mine.add(d)
+                else:
+                    ops.append({"t": "batchh", "parts": [part(d, rng.range(1, 2))]})
             elif r < 75 and t in owned:
                 g = rng.choice(owned[t])
                 grp = list(groups[g])
@@ -157,7 +203,7 @@ def gen_mix(rng, big=False):
                 else:
                     ops.append({"t": "delete", "d": nextp + 12, "present": False})
         threads.append(ops)
-    return {"kind": "mix", "procs": procs, "nds": nds, "groups": groups, "threads": threads, "readers": readers}
+    return {"kind": "mix", "procs": procs, "nds": nds, "groups": groups, "threads": threads, "readers": readers, "watch": late}
 
 
 def gen(rng, tier):
@@ -196,15 +242,21 @@ def nl(xs):
 
 
 def part_term(p, k):
-    n = p["new"] + (1 if p.get("upd") else 0) + (1 if p.get("mrg") else 0)
+    n = p["new"] + (1 if p.get("upd") else 0) + (1 if p.get("mrg") else 0) + (1 if p.get("hot") else 0)
     return "{| p_ds := %s; p_ms := %s; p_new := %s |}" % (lk(p["d"]), nl([k] * n), vlib.coq_bool(p["new"] > 0))
 
 
 def op_term(op, k, evs):
     """evs = the events of this op: (kind, lock)"""
     t = op["t"]
-    if t == "batch":
+    if t in ("batch", "batchh"):
         return "(OBatch %s)" % part_term(op["parts"][0], k)
+    if t == "txnfail":
+        locked = []
+        for kind, l in evs:
+            if kind == 1 and l not in locked:
+                locked.append(l)
+        return "(OTxnFail %s)" % vlib.coq_list([lk(d) for d in locked])
     if t == "txn":
         parts = sorted(op["parts"], key=lambda p: (p["d"] != CORE, p["d"]))  # name order: core.Dataset < dNNN
         dss = [p["d"] for p in parts]
@@ -219,7 +271,9 @@ def op_term(op, k, evs):
         return "(OTxn %s %s %s)" % (vlib.coq_list([part_term(p, k) for p in parts]),
                                     vlib.coq_list([lk(d) for d in ao]), vlib.coq_list([lk(d) for d in uo]))
     if t == "create":
-        return "(OCreate %d%%N %s)" % (op["d"], vlib.coq_bool(op["isnew"]))
+        # concurrent creation of one name: who actually creates is decided by the schedule (observed: the creator writes core.Dataset)
+        isnew = op["isnew"] if "isnew" in op else any(kind == 1 and l == CORE for kind, l in evs)
+        return "(OCreate %d%%N %s)" % (op["d"], vlib.coq_bool(isnew))
     if t == "rename":
         m = {"noop": "RNoop", "same": "RSame", "clash": "RClash"}.get(op["mode"]) or "(RMove %d%%N)" % op["to"]
         return "(ORename %d%%N %s)" % (op["d"], m)
@@ -262,9 +316,11 @@ def run_term(c, r, kbase):
         else:
             bad += 1
     bad += r.get("torn", 0)
-    return ("{| r_ops := %s; r_outcome := %d%%N; r_trace := %s; r_errs := %s; r_feeds := %s; r_snaps := %s; r_bad := %d%%N |}" % (
+    times = ["(%s, %s)" % (lk(int(d)), nl(ts)) for d, ts in sorted((r.get("times") or {}).items(), key=lambda x: int(x[0]))]
+    looks = ["(%d%%N, %d%%N)" % (max(a, 0), b if b >= 0 else 999999999) for _, a, b in (r.get("looks") or [])]
+    return ("{| r_ops := %s; r_outcome := %d%%N; r_trace := %s; r_errs := %s; r_feeds := %s; r_snaps := %s; r_times := %s; r_lookups := %s; r_bad := %d%%N |}" % (
         vlib.coq_list(ops), OUT.get(r.get("outcome"), 2), vlib.coq_list(trace), errs_t, vlib.coq_list(feeds),
-        vlib.coq_list(snaps), bad))
+        vlib.coq_list(snaps), vlib.coq_list(times), vlib.coq_list(looks), bad))
 
 
 def term(c, o):
@@ -326,5 +382,7 @@ def tags(c, o):
     for ops in c["threads"]:
         for op in ops:
             kinds.add(op["t"] if op["t"] != "txn" else ("txn%d" % min(len(op["parts"]), 3)))
+    if c.get("gate"):
+        tg.append("gate=" + c["gate"])
     tg += ["has=" + k for k in sorted(kinds)]
     return tg
